@@ -135,7 +135,7 @@ def gen_source(rnd, size_class, allow_empty, allow_extreme=True):
             spec["dtype"] = rnd.choice(["uint8", "uint16", "uint64"])
             spec["pos"] = [abs(v) + rnd.choice([0, 0, 100]) for v in spec["pos"]]
             spec["neg"] = [abs(v) + rnd.choice([0, 0, 100]) for v in spec["neg"]]
-    elif rnd.random() < 0.06:
+    elif rnd.random() < 0.06 and spec["style"] != "extreme":  # (1e100 is not finite in single precision: outside the quantifier)
         # single-precision scores (values chosen exactly representable so that the scenario round-trips)
         spec["dtype"] = "float32"
         spec["pos"] = [float(np.float32(v)) for v in spec["pos"]]
